@@ -87,6 +87,12 @@ type node interface {
 	// delete removes all information from the node.
 	delete()
 
+	// canSetOwner reports whether the user u may change the owner of the node to uid and gid.
+	canSetOwner(uid, gid int, u avfs.UserReader) bool
+
+	// owner returns the user and group ids of the node.
+	owner() (uid, gid int)
+
 	// fillStatFrom returns a *MemInfo (implementation of fs.FileInfo) from a node named name.
 	fillStatFrom(name string) *MemInfo
 
